@@ -94,6 +94,7 @@ Fixpoint cont_loop (fuel : nat) (i : istream) (acc : list (list Z)) (usize : Z) 
     match dec cs sp cap C_ohb (fresh cs C_ohb) i with
     | Err EThrow => (acc, usize, EndException)
     | Err EAlloc => (acc, usize, EndForeign)
+    | Err ESpin => (acc, usize, EndFuel)
     | Err EOOBWrite => (acc, usize, EndUnsafe)
     | Err _ => (acc, usize, EndUnsafe)
     | Ok (h, i1) =>
@@ -104,6 +105,7 @@ Fixpoint cont_loop (fuel : nat) (i : istream) (acc : list (list Z)) (usize : Z) 
           else match dec cs sp cap C_lc (fresh cs C_lc) i2 with
                | Err EThrow => (acc, usize, EndException)
                | Err EAlloc => (acc, usize, EndForeign)
+               | Err ESpin => (acc, usize, EndFuel)
                | Err _ => (acc, usize, EndUnsafe)
                | Ok (lc, i3) =>
                    if negb (s_good i3) then (acc, usize, EndException)
@@ -125,6 +127,7 @@ Fixpoint obj_loop (fuel : nat) (i : istream) (acc : list delivered) (count : Z) 
     match dec cs sp cap C_ohb (fresh cs C_ohb) i with
     | Err EThrow => (acc, count, EndException)
     | Err EAlloc => (acc, count, EndForeign)
+    | Err ESpin => (acc, count, EndFuel)
     | Err _ => (acc, count, EndUnsafe)
     | Ok (h, i1) =>
         if negb (s_good i1) then (acc, count, EndClean)
@@ -145,6 +148,7 @@ Fixpoint obj_loop (fuel : nat) (i : istream) (acc : list delivered) (count : Z) 
                 match dec cs sp cap c o0 i2 with
                 | Err EThrow => (acc, count, EndException)
                 | Err EAlloc => (acc, count, EndForeign)
+                | Err ESpin => (acc, count, EndFuel)
                 | Err _ => (acc, count, EndUnsafe)
                 | Ok (o, i3) =>
                     if negb (s_good i3) then (acc, count, EndException)
@@ -171,17 +175,24 @@ Record rresult := {
   r_usize : Z                        (* currentUncompressedFileSize *)
 }.
 
-Definition read_session (bytes : list Z) : rresult :=
-  let i0 := mk_fstream bytes in
+(* the session on a given compressed-file stream (n = number of bytes in it) *)
+Definition read_session_on (i0 : istream) (n : nat) : rresult :=
   match dec cs sp cap C_stats (fresh cs C_stats) i0 with
   | Err _ => {| r_open_throws := true; r_stats := fresh cs C_stats; r_conts := []; r_cend := EndException;
                 r_objs := []; r_oend := EndException; r_count := 0; r_usize := 0 |}
   | Ok (st, i1) =>
-      let '(conts, usize, cend) := cont_loop (S (S (length bytes / 16))) i1 [] (geti st S_statsize) in
+      let '(conts, usize, cend) := cont_loop (S (S (n / 16))) i1 [] (geti st S_statsize) in
       let U := concat conts in
       let '(objs, count, oend) := obj_loop (2 * length U + 16) (mk_ustream U) [] 0 in
       {| r_open_throws := false; r_stats := st; r_conts := conts; r_cend := cend;
          r_objs := objs; r_oend := oend; r_count := count; r_usize := usize |}
   end.
+
+Definition read_session (bytes : list Z) : rresult := read_session_on (mk_fstream bytes) (length bytes).
+
+(* the same session when File::close() closes the compressed file under the inflating worker's feet after k more effective
+   operations on it (k ranges over every point at which the close can take effect; what the parser then still finds in the
+   inflated stream is what the inflating stage had appended) *)
+Definition read_session_closing (bytes : list Z) (k : nat) : rresult := read_session_on (mk_fstream_closing bytes k) (length bytes).
 
 End FileModel.
